@@ -1088,6 +1088,16 @@ INT_W = {'u8': 8, 'u16': 16, 'u32': 32, 'u64': 64, 'usize': 64, 'u128': 128, 'bo
          'i8': 8, 'i16': 16, 'i32': 32, 'i64': 64, 'isize': 64, 'i128': 128}
 
 
+# pure std functions the evaluator understands (semantics from the std documentation)
+CALL_MODELS = [
+    (r'^core::num::<impl u8>::is_ascii_digit$', lambda b: int(0x30 <= b <= 0x39)),
+    (r'^core::num::<impl u8>::is_ascii_alphabetic$', lambda b: int(0x41 <= b <= 0x5a or 0x61 <= b <= 0x7a)),
+    (r'^core::num::<impl u8>::is_ascii_whitespace$', lambda b: int(b in (0x20, 0x09, 0x0a, 0x0c, 0x0d))),
+    (r'^core::num::<impl u8>::to_ascii_lowercase$', lambda b: b + 32 if 0x41 <= b <= 0x5a else b),
+    (r'^core::num::<impl u(8|16|32|64|size)>::wrapping_add$', lambda a, b: a + b),
+]
+
+
 def _binop(op, a, b, w):
     m = (1 << w) - 1
     if op in ('BitOr',):
@@ -1131,7 +1141,8 @@ def _binop(op, a, b, w):
     raise KeyError(op)
 
 
-def eval_region(fn, entry, env, max_steps=2000, stop_at=None, menv=None, assume_asserts=False, until_assert=None):
+def eval_region(fn, entry, env, max_steps=2000, stop_at=None, menv=None, assume_asserts=False, until_assert=None,
+                read_hook=None, skip_calls=False, track_mem=False):
     """Concretely evaluate MIR from block `entry` with env {local: int|tuple}.
     Only pure integer statements, switches, gotos and asserts are interpreted; the first
     other terminator ends the region.  Returns (kind, block, env):
@@ -1141,15 +1152,21 @@ def eval_region(fn, entry, env, max_steps=2000, stop_at=None, menv=None, assume_
     """
     env = dict(env)
     refs = {}
+    prefs = {}
     B = fn.blocks
 
     def width(l):
         return INT_W.get(fn.locals[l]['ty'], 64)
 
     menv = dict(menv or {})
+    menv_watch = set(menv) if track_mem else None
 
     def rd_place(p):
         l, pr = p['l'], p['p']
+        if pr and read_hook is not None:
+            hv = read_hook(p, env)
+            if hv is not None:
+                return hv
         if pr and menv:
             k = json.dumps(p, sort_keys=True)
             if k in menv:
@@ -1157,7 +1174,16 @@ def eval_region(fn, entry, env, max_steps=2000, stop_at=None, menv=None, assume_
         if not pr:
             return env[l]
         if pr == ['deref']:
-            return env[refs[l]]
+            if l in refs:
+                return env[refs[l]]
+            if l in prefs:
+                return rd_place(prefs[l])
+            raise KeyError(('deref', l))
+        if len(pr) in (1, 2) and isinstance(pr[-1], dict) and 'index' in pr[-1] and (len(pr) == 1 or pr[0] == 'deref'):
+            base = env.get(l)
+            if isinstance(base, (bytes, tuple, list)):
+                iv = env[pr[-1]['index']]
+                return base[iv]
         if len(pr) == 1 and isinstance(pr[0], dict) and 'f' in pr[0] and isinstance(env.get(l), tuple):
             return env[l][pr[0]['i']]
         raise KeyError(('place', l))
@@ -1166,6 +1192,8 @@ def eval_region(fn, entry, env, max_steps=2000, stop_at=None, menv=None, assume_
         if op['k'] == 'const':
             if op.get('val') is not None:
                 return op['val']
+            if 'bytes' in op:
+                return bytes.fromhex(op['bytes'])
             raise KeyError('const')
         return rd_place(op['place'])
 
@@ -1175,16 +1203,31 @@ def eval_region(fn, entry, env, max_steps=2000, stop_at=None, menv=None, assume_
         steps += 1
         if steps > max_steps:
             return ('stuck', bi, env)
-        if stop_at is not None and bi in stop_at:
+        if stop_at is not None and bi in stop_at and steps > 1:
+            if track_mem:
+                return ('arm', bi, env, menv)
             return ('arm', bi, env)
         b = B[bi]
         for s in b['stmts']:
             lhs, rv = s['lhs'], s['rv']
             k = rv['k']
             if lhs['p']:
-                # store into memory: forget what we knew about it
-                if menv:
-                    menv.pop(json.dumps(lhs, sort_keys=True), None)
+                # store into memory: forget (or, with track_mem, record) what we know about it
+                key_ = json.dumps(lhs, sort_keys=True)
+                if track_mem:
+                    try:
+                        if k == 'use':
+                            menv[key_] = rd(rv['a'])
+                        else:
+                            menv.pop(key_, None)
+                            if key_ in (menv_watch or ()):
+                                return ('stuck', bi, env)
+                    except KeyError:
+                        menv.pop(key_, None)
+                        if key_ in (menv_watch or ()):
+                            return ('stuck', bi, env)
+                elif menv:
+                    menv.pop(key_, None)
                 continue
             l = lhs['l']
             try:
@@ -1194,11 +1237,12 @@ def eval_region(fn, entry, env, max_steps=2000, stop_at=None, menv=None, assume_
                     pl = rv['place']
                     if not pl['p']:
                         refs[l] = pl['l']
-                    elif pl['p'] == ['deref']:
+                    elif pl['p'] == ['deref'] and pl['l'] in refs:
                         refs[l] = refs[pl['l']]
                     else:
                         env.pop(l, None)
                         refs.pop(l, None)
+                        prefs[l] = pl
                 elif k == 'bin':
                     a, c = rd(rv['a']), rd(rv['b'])
                     env[l] = _binop(rv['op'], a, c, width(l) if not rv['op'].endswith('WithOverflow') else
@@ -1248,7 +1292,36 @@ def eval_region(fn, entry, env, max_steps=2000, stop_at=None, menv=None, assume_
                 bi = t['target']
             else:
                 return ('panic', bi, env)
+        elif t['k'] == 'call' and skip_calls and t['target'] >= 0:
+            modelled = False
+            callee = (t['resolved'] or [t['callee']])[0]
+            for rx, fnm in CALL_MODELS:
+                if re.search(rx, callee) and not t['dest']['p']:
+                    try:
+                        vals = []
+                        for a in t['args']:
+                            if a['k'] == 'const':
+                                vals.append(rd(a))
+                            elif not a['place']['p'] and a['place']['l'] in refs:
+                                vals.append(env[refs[a['place']['l']]])
+                            elif not a['place']['p'] and a['place']['l'] in prefs:
+                                vals.append(rd_place(prefs[a['place']['l']]))
+                            else:
+                                vals.append(rd_place(a['place']))
+                        env[t['dest']['l']] = fnm(*vals)
+                        modelled = True
+                    except (KeyError, TypeError):
+                        pass
+                    break
+            if not modelled and not t['dest']['p']:
+                env.pop(t['dest']['l'], None)
+                refs.pop(t['dest']['l'], None)
+            bi = t['target']
+        elif t['k'] == 'drop' and skip_calls:
+            bi = t['target']
         else:
+            if track_mem:
+                return ('arm', bi, env, menv)
             return ('arm', bi, env)
 
 
